@@ -238,7 +238,11 @@ bool runDynamic(const Seq& s, Fail& F, bool& nontrivial) {
 		}
 		switch (o.kind % 7) {
 		case 0: if (m.size() < size_t(C)) { const auto idx = arr.emplace(it.v, it.w); if (size_t(idx) != m.size()) F.set(S("DynamicArrayT<%d>: emplace returned %d, expected %zu", C, int(idx), m.size())); m.push_back(it); } break;
-		case 1: if (m.size() < size_t(C)) { arr += it; m.push_back(it); } break;
+		case 1: if (m.size() < size_t(C)) {
+				auto&& r = (arr += it); m.push_back(it);
+				if (static_cast<const void*>(&r) != static_cast<const void*>(&arr)) F.set(S("DynamicArrayT<%d>: operator+=(item) does not return the array itself", C));
+				if (m.size() + 2 <= size_t(C) && (o.a & 1)) { const Item it2{it.v ^ 0x5555u, uint16_t(it.w + 1)}; (arr += it) += it2; m.push_back(it); m.push_back(it2); }   // chained appends
+			} break;
 		case 2: if (!m.empty()) { const size_t i = size_t(o.a) % m.size(); if (arr[i].v != m[i].v) F.set(S("DynamicArrayT<%d>: [%zu] wrong", C, i)); } break;
 		case 3: arr.clear(); m.clear(); break;
 		case 4: break;
@@ -247,8 +251,12 @@ bool runDynamic(const Seq& s, Fail& F, bool& nontrivial) {
 			const size_t n = size_t(o.b) % 8;
 			std::vector<Item> add;
 			for (size_t q = 0; q < n && m.size() + add.size() < size_t(C); ++q) { const Item x{uint32_t(o.c + q) * 7919u, uint16_t(q)}; other.emplace(x.v, x.w); add.push_back(x); }
-			arr += other;
+			auto&& r = (arr += other);
 			m.insert(m.end(), add.begin(), add.end());
+			if (static_cast<const void*>(&r) != static_cast<const void*>(&arr)) F.set(S("DynamicArrayT<%d>: operator+=(array) does not return the array itself", C));
+			// chained: everything appended through the result of an append must land in the array
+			if ((o.a & 1) && m.size() + 1 <= size_t(C)) { (arr += DynamicArrayT<Item, 7>{}) += it; m.push_back(it); }
+			if ((o.a & 2) && m.size() + other.count() <= size_t(C)) { DynamicArrayT<Item, 7> none; (arr += none) += other; m.insert(m.end(), add.begin(), add.end()); }
 			break; }
 		case 6: if (!m.empty()) { const size_t i = size_t(o.a) % m.size(); arr[i] = it; m[i] = it; } break;
 		}
@@ -371,6 +379,18 @@ bool runStream(const Seq& s, Fail& F, bool& nontrivial) {
 		if (!box.intact()) { F.set(S("stream<%d>: wrote outside the buffer", C)); return; }
 	};
 	verify(0);
+	// a reader attached to the buffer BEFORE anything is written reads the fields as they appear (both stream ends share the buffer)
+	ffsm2::detail::BitReadStreamT<C> early{g.b, static_cast<ffsm2::Long>(c0)};
+	size_t earlyNext = 0; int earlyCursor = c0;
+	auto catchUp = [&]() {
+		while (earlyNext < fields.size() && !F.failed) {
+			const uint32_t v = readW<C>(early, fields[earlyNext].w, std::make_index_sequence<32>{});
+			earlyCursor += fields[earlyNext].w;
+			if (v != fields[earlyNext].v) F.set(S("stream<%d>: a reader constructed before the writes read field %zu (width %d at bit %d) as %x, written %x", C, earlyNext, fields[earlyNext].w, earlyCursor - fields[earlyNext].w, v, fields[earlyNext].v));
+			if (int(early.cursor()) != earlyCursor) F.set(S("stream<%d>: early reader cursor %d, expected %d", C, int(early.cursor()), earlyCursor));
+			++earlyNext;
+		}
+	};
 	for (size_t k = 0; k < s.ops.size() && !F.failed; ++k) {
 		int w = 1 + ((s.ops[k].a % 32) + 32) % 32;
 		if (cursor + w > C) w = C - cursor;
@@ -385,8 +405,11 @@ bool runStream(const Seq& s, Fail& F, bool& nontrivial) {
 		cursor += w;
 		fields.push_back({w, v});
 		verify(k + 1);
+		if ((s.ops[k].b & 3) == 0) catchUp();
 	}
 	if (!F.failed) {
+		// a reader positioned ahead of time at the last field
+		catchUp();
 		ffsm2::detail::BitReadStreamT<C> rs{g.b, static_cast<ffsm2::Long>(c0)};
 		int rc = c0;
 		for (size_t k = 0; k < fields.size() && !F.failed; ++k) {
